@@ -805,6 +805,29 @@ Definition mstep (s : vstate) (o : vop) : vstate :=
     | None => s
     end
   | VDel i => mkV (drop_slot s i) (gset S i None)
+  | VSubAssign i k j =>
+    (* Element& e = slot[i]->toElement();  k-th item of e.content = *slot[j];   operator=: take the reference on the
+       source, release the old item, store (Xml.hpp:84-92) *)
+    if (i =? j)%nat then s else
+    match gget S i, gget S j with
+    | Some hi, Some hj =>
+      match lookup H hi with
+      | Some kb =>
+        match pl kb with
+        | PElem _ _ _ _ hs0 =>
+          if (k <? length hs0)%nat then
+            let '(H1, (l, c, nm0, at_, hs), ip) := open_elem H hi in
+            let hk := nth k hs None in
+            let H2 := release_top (share H1 hj) hk in
+            let '(H3, h3) := alloc H2 (PElem l c nm0 at_ (upd k hj hs)) in
+            mkV H3 (place i h3 ip S)
+          else s
+        | PText _ => s
+        end
+      | None => s
+      end
+    | _, _ => s
+    end
   end.
 
 Definition vinit : vstate := mkV [] [].
